@@ -281,7 +281,12 @@ def run(ctx):
                 "with or without update_resistances) / non-default n_bins of the climate routine, on the "
                 "ASan+UBSan build: verdict vs model; T3: adaptive-neighbourhood kernel on valid, permuted, "
                 "repeated, prefilled, degenerate and corrupted tables, n_time smaller / larger than the "
-                "matrix, with the model's well-formedness test against an independent evaluation; oracle "
+                "matrix, with the model's well-formedness test against an independent evaluation; T1 also with "
+                "+-inf / NaN data, scaling in {0, 2^-k, inf}, range_min in {finite, -inf}; T4: the typed-buffer "
+                "kernels without data-dependent subscripts x buffer extents exactly as needed / larger / one short "
+                "on one axis / random x integer parameters 0..4: IndexError | normal return vs the prediction from "
+                "the generated site lists; every kernel call made under the public API is recorded with its "
+                "shapes and tested against the contract the in-bounds theorems assume; oracle "
                 "stream: other dtypes, random / +-inf / NaN / overflowing / subnormal-range float data in "
                 "both widths, n_bins up to 4096, RecurrencePlot / VisibilityGraph entry points, histories on "
                 "one Surrogates / RecurrencePlot object with library-held arrays.  distinct = distinct "
@@ -297,8 +302,12 @@ def run(ctx):
         "element counts of every array < 2^31 (under this hypothesis the *_sites_fit theorems prove "
         "that no int index expression of the translated C text overflows; the pointer walks with "
         "running offsets are computed in unbounded integers in the model)",
-        "the binary64 product of a value < 1 with n_bins < 2^31 rounds below n_bins (hypothesis of "
-        "symbolRnd_in_range_partial; driven by the near-one inputs)",
+        "floating-point rounding is monotone, idempotent, fixes 0 and returns a nearest binary64 value "
+        "(hypotheses of symbolRnd_in_range_b64; no bit-level IEEE model)",
+        "the data-dependent subscripts of the typed-buffer kernels (indices read from arrays, random draws, "
+        "while counters; census in extra.typed_buffer_census) are protected by Cython's bounds check",
+        "the contracts of the typed-buffer kernels (translate/c20_contracts.json) describe what the Python "
+        "callers pass: validated on the calls observed in this run, not derived from the callers' source",
         "alloca(4*8*tmax) in _spearman_corr does not exhaust the stack (not modelled)",
     ]
     ctx.proofs()
@@ -638,8 +647,10 @@ def run(ctx):
             cls = "-"
             if q["id"].startswith("a"):
                 cls = ameta[int(q["id"][1:])][1]
-            elif q["id"].startswith("o"):
+            elif q["id"].startswith("o") or q["id"].startswith("p"):
                 cls = q.get("cls", "-")
+                if q["id"].startswith("p"):
+                    cls = q["key"] + ":" + cls
             kind = "crash" if not r["reports"] else \
                 ("ubsan" if all("runtime error" in x or x.startswith("#") for x in r["reports"])
                  else "asan")
